@@ -137,8 +137,9 @@ def open_file(interp, path, mode="r", **kw):
     if key in reg:
         pos0, line_fn = reg[key]
         return Ref(st.alloc(Content("file", {"mode": "r", "path": path, "pos": pos0, "line_fn": line_fn})), "file")
-    from .interp import PyRaise
-    raise PyRaise("unresolved-callee", f"open({path!r}): no file model registered for this path")
+    # no line model registered for this path: an opaque handle whose abstract position counts the records consumed by
+    # contract-level readers (callee contracts advance it); readline() on it is outside the model
+    return Ref(st.alloc(Content("file", {"mode": "r", "path": path, "pos": 0, "line_fn": None})), "file")
 
 
 def new_rfile(pos, line_fn, path="<symbolic file>"):
@@ -155,6 +156,8 @@ def file_method(interp, f, meth, args, kwargs):
             from .interp import PyRaise
             raise PyRaise("UnsupportedOperation", "not readable")
         pos = d["pos"]
+        if d.get("line_fn") is None:
+            raise EngineError("readline() on a file without a line model")
         line = d["line_fn"](pos)
         nd = dict(d)
         nd["pos"] = A.simp(sv.add(pos, 1))
